@@ -80,7 +80,11 @@ class AstToODataVisitor(visitor.NodeVisitor):
 
     def visit_List(self, node: ast.List) -> str:
         """:meta private:"""
-        return "(" + ", ".join(self.visit(v) for v in node.val) + ")"
+        items = ", ".join(self.visit(v) for v in node.val)
+        if len(node.val) == 1:
+            # The grammar requires a trailing comma for single item lists:
+            items += ","
+        return "(" + items + ")"
 
     def visit_Add(self, node: ast.Add) -> str:
         """:meta private:"""
